@@ -174,6 +174,26 @@ def unbranched_empty_test(prog):
     return False
 
 
+def load_after_join_unset(prog, outcome):
+    """F20 shape: main loads x0 after a join and reads a value that is not a destructor's (10 + key)"""
+    ths = threads_of(prog)
+    joined = False
+    res = {(t, pc): r for t, pc, _op, r in op_results(prog, outcome)}
+    for pc, o in enumerate(ths[0]):
+        if o[0] == "join":
+            joined = True
+        if joined and o[0] == "ld" and res.get((0, pc)) not in ("v:10", "v:11"):
+            return True
+    return False
+
+
+def unjoined_lazy(prog):
+    """F22 shape: a spawned thread that main never joins touches a lazy static"""
+    ths = threads_of(prog)
+    joined = {int(o[1]) for o in ths[0] if o[0] == "join"}
+    return any(t not in joined and any(o[0] == "lazy" for o in ops) for t, ops in enumerate(ths) if t > 0)
+
+
 ASSERTS = {"notNotified", "expectedLock", "expectedRead", "expectedWrite"}
 
 SIGNATURES = {
@@ -211,6 +231,15 @@ SIGNATURES = {
     and has(p, "unpark"),
     # F15: a stale park token makes Condvar::wait return while the thread stays queued
     "condvar-stale-token": lambda p, kind, o: has(p, "cvwait") and has(p, "unpark"),
+    # F8: a deadlock (or another loom-raised panic) unwinds a frame that owns a loom Arc: Arc::drop → schedule
+    # without an active thread → panic in a destructor → abort.  block_on owns such an Arc.
+    "arc-drop-during-deadlock-abort": lambda p, kind, o: kind == "abort" and has(p, "blockon"),
+    # F20: join returns before the joined thread's thread-local destructors ran: a load after the join
+    # still sees the value from before the destructor's store
+    "join-before-tls-destructors": lambda p, kind, o: kind == "forbidden" and "tlsdtor=1" in p and verdict(o) == "ok"
+    and load_after_join_unset(p, o),
+    # F22: lazy statics are torn down when the main closure returns
+    "lazy-static-dropped-at-main-exit": lambda p, kind, o: verdict(o) == "lazyShutdown" and unjoined_lazy(p),
     # F12: a leaked raw allocation aborts the process instead of reporting "Allocation leaked"
     "raw-alloc-leak-abort": lambda p, kind, o: kind == "abort" and has(p, "alloc"),
 }
